@@ -24,6 +24,9 @@ class StackFrame:
 class LoopFrame(StackFrame):
     def __init__(self, parent):
         super().__init__(parent)
+        # A loop runs in the scope of the enclosing routine: its parameters
+        # stay parameters (and keep hiding globals) inside the loop body.
+        self.params = parent.params
         self._loop_var = {}
 
     def get_loop_var(self, index):
